@@ -26,6 +26,7 @@ pub mod c10check;
 pub mod c04check;
 pub mod c03check;
 pub mod c07check;
+pub mod c09check;
 
 use common::{Failure, ReplayFile, Tier, case_from};
 
@@ -38,6 +39,7 @@ pub fn dispatch(prop: &str, tier: Tier, seed: u64) -> i32 {
         "C05" => memchecks::check_c05(tier, seed),
         "C06" => fetchcheck::check_c06(tier, seed),
         "C07" => c07check::check_c07(tier, seed),
+        "C09" => c09check::check_c09(tier, seed),
         "C10" => c10check::check_c10(tier, seed),
         "C11" => fetchcheck::check_c11(tier, seed),
         "C12" => c12check::check_c12(tier, seed),
@@ -72,6 +74,7 @@ pub fn replay(rf: &ReplayFile) -> anyhow::Result<Option<Failure>> {
         ("C03", _) => c03check::exec_c03(&case_from(rf)?).failure,
         ("C07", "splitter") => c07check::exec_split(&case_from(rf)?).failure,
         ("C07", _) => c07check::exec_e2e(&case_from(rf)?).failure,
+        ("C09", _) => c09check::exec_c09(&case_from(rf)?).failure,
         ("C14", _) => evcheck::exec_c14(&case_from(rf)?).failure,
         ("C05" | "C13" | "C18", _) => memchecks::replay_mem(&rf.property, case_from(rf)?),
         (p, s) => anyhow::bail!("no replay handler for {p}/{s}"),
